@@ -23,6 +23,9 @@ func init() {
 			{ID: "R14b", Floor: 4, Doc: "advance invariant U(X)+X in Next and SkipNext; every success return passes the advance; initial offsets", Run: ruleR14b},
 			{ID: "R14d", Floor: 2, Doc: "no bare Read in Next/SkipNext (a Read may be short): bodies are consumed with ReadFull/CopyN/ReadNode; SkipNext returns freshly allocated metadata", Run: ruleR14d},
 			{ID: "R14c", Floor: 1, Doc: "SkipNext metadata from the pre-advance offset", Run: ruleR14c},
+			{ID: "R14e", Floor: 7, Doc: "the CARv1 header size that seeds the offsets is measured by encoding, like its sibling writers (= R01c)", Run: ruleR01c},
+			{ID: "R14f", Floor: 2, Doc: "skipping on non-seekable sources counts every byte (= R03d)", Run: ruleR03d},
+			{ID: "R14g", Floor: 1, Doc: "section length reads distinguish clean EOF from truncation the same way for every source type (= R02c)", Run: ruleR02c},
 		},
 	})
 }
@@ -265,7 +268,7 @@ func ruleR14b(c *Ctx, r *Report) {
 func allSuccessPass(fn *ssa.Function, st ssa.Instruction) bool {
 	cut := EdgeSet{}
 	for i := range st.Block().Succs {
-		cut[Edge{st.Block(), i}] = true
+		cut[Edge{From: st.Block(), Succ: i}] = true
 	}
 	reachable := reach(fn, nil, cut)
 	for _, ret := range returnsOf(fn) {
